@@ -13,13 +13,185 @@ import realgen
 from common import coq_list, coq_string
 
 PID = "C14"
-PREAMBLE = """From Coq Require Import List Bool String.
-From Cheetah Require Import Ops.Json.
+PREAMBLE = """From Coq Require Import List Bool String NArith.
+From Cheetah Require Import Ops.Json Ops.JsonKeys.
 Import ListNotations. Open Scope string_scope."""
 TOP_LEVEL = ["version", "title", "info", "root", "elements", "lattices"]
 F12_ATTRS = {("Quadrupole", "num_steps"), ("Quadrupole", "tracking_method"), ("Screen", "is_blocking"), ("Undulator", "is_active")}
 VECTORISABLE = {"length", "k1", "angle", "tilt", "k", "voltage", "phase", "dipole_e1", "dipole_e2", "rbend_e1", "rbend_e2"}
 TMP = common.BUILD / PID / "json"
+
+
+# ---------------------------------------------------------------- names
+def name_bytes(s):
+    """UTF-8 bytes of a name (a lone surrogate, which Python accepts in a str, has none: None)"""
+    try:
+        return list(s.encode("utf-8"))
+    except UnicodeEncodeError:
+        return None
+
+
+def sb(s):
+    b = name_bytes(s)
+    return "(sb [" + "; ".join(map(str, b)) + "]%N)"
+
+
+def cs(s):
+    """Coq term for a name: a literal for plain printable ASCII, else the byte list (Ops/JsonKeys.sb)"""
+    if all(32 <= ord(c) < 127 for c in s):
+        return coq_string(s)
+    if name_bytes(s) is None:
+        return coq_string("<lone surrogate " + "-".join(f"{ord(c):x}" for c in s) + ">")
+    return sb(s)
+
+
+# The hostile alphabet.  An element / segment name is ANY Python str: cheetah neither rejects nor sanitises names (Element.__init__
+# stores the argument as it is).  Every name reaches the file as a dictionary KEY through the hand-written line of
+# CompactJSONEncoder.encode and as a VALUE (cell lists, "root") through json.dumps.
+HOSTILE_CHARS = ['"', "\\", "/", "\t", "\n", "\r", "\x00", "\x01", "\x1f", "\x7f", "\x08", "\x0c", " ", "'", ":", ",", "{", "}", "[", "]",
+                 "\u00e9", "e\u0301", "\u00df", "\u03a9", "\u78c1", "\u200b", "\u2028", "\ufeff", "\U0001f600", "\U0001d54f",
+                 "a", "B", "1", "_", "-", ".", "u", "t", "n", "0", "x", "Q"]
+HOSTILE_FIXED = ["", " ", "  ", " lead", "trail ", "null", "true", "false", "NaN", "Infinity", "-Infinity", "None", "0", "-1", "1e5", "[]", "{}",
+                 '{"a": 1}', '"', '""', "\\", "\\\\", '\\"', "BPM\\t1", 'Q1 (2" bore)', 'arc "A"', "\\u0041", "A", "\\n", "\n", "a\\", "a\\\\b",
+                 "elements", "lattices", "root", "version", "title", "info", "cheetah-0.7", "cell", "Unnamed Lattice", "Drift", "length",
+                 "x" * 3000, "\u00e9" * 700, '"' * 50, "\\" * 51, "Q1", "q1", "Q1 ", "\u00e9", "e\u0301", "\ud800"]
+# child names that collide with an attribute or a method of Segment itself (finding F81): generated in a small dedicated group only
+COLLIDING = ["name", "elements", "_modules", "to_lattice_json", "training", "track", "transfer_map", "split", "forward", "_buffers", "length"]
+
+
+def collision_names():
+    """names under which Segment.__init__'s `self.__dict__[element.name] = element` shadows or clobbers something of the segment
+    itself, computed on the LIVE class: instance attributes, registered modules / buffers / parameters, and every class attribute
+    that is not a data descriptor (methods, plain attributes)."""
+    import inspect
+    import cheetah
+    probe = cheetah.Segment([cheetah.Marker(name="m__probe")], name="s__probe")
+    out = (set(vars(probe)) - {"m__probe"}) | set(probe._modules) | set(probe._buffers) | set(probe._parameters)
+    for n in dir(type(probe)):
+        if not hasattr(type(inspect.getattr_static(type(probe), n)), "__set__"):
+            out.add(n)
+    return out
+
+
+_COLLISION = []
+
+
+def collides(spec, root=True):
+    """some child (not the root) carries a name that collides with an attribute / method of the Segment holding it"""
+    if not _COLLISION:
+        _COLLISION.append(collision_names())
+    if not root and spec["name"] in _COLLISION[0]:
+        return True
+    return any(collides(c, False) for c in spec.get("es", []))
+
+
+def twin(rng, n):
+    """a name that differs from n only by case, by an escape, by a space or by Unicode normalisation"""
+    import unicodedata
+    cands = [n.upper(), n.lower(), n.swapcase(), n + " ", " " + n, n.replace("\t", "\\t"), n.replace("\\t", "\t"), n.replace("\n", "\\n"),
+             n.replace('"', '\\"'), n.replace("\\", "\\\\"), n.replace("\\\\", "\\"), n.replace("A", "\\u0041"), n.replace("\\u0041", "A"),
+             unicodedata.normalize("NFD", n), unicodedata.normalize("NFC", n), n + "\x00", n + "\u200b", n.replace("/", "\\/")]
+    cands = [c for c in cands if c != n]
+    return rng.choice(cands) if cands else n + "'"
+
+
+DEGENERATE = ["", " ", "0", "null", "false", "None", "[]", "\x00"]      # empty / falsy-looking / blank names
+
+
+def hostile_name(rng, used):
+    kind = rng.random()
+    if kind < 0.08:
+        return rng.choice(DEGENERATE)
+    if kind < 0.45:
+        return rng.choice(HOSTILE_FIXED)
+    if kind < 0.65 and used:
+        return twin(rng, rng.choice(sorted(used)))
+    return "".join(rng.choice(HOSTILE_CHARS) for _ in range(rng.choice([1, 1, 2, 3, 5, 8])))
+
+
+def nodes(spec):
+    yield spec
+    for c in spec.get("es", []):
+        yield from nodes(c)
+
+
+def hostile_rename(rng, lat, p=0.6, colliding=False, force=None):
+    """give the root, sub-segments and elements names from the hostile alphabet, keeping all names distinct (as exact strings)."""
+    used = {n["name"] for n in nodes(lat)}
+    for i, node in enumerate(nodes(lat)):
+        if rng.random() >= p:
+            continue
+        for _ in range(20):
+            cand = hostile_name(rng, used)
+            if cand in used or (i > 0 and cand in (_COLLISION[0] if _COLLISION else collision_names())):
+                continue
+            used.discard(node["name"])
+            used.add(cand)
+            node["name"] = cand
+            break
+    if force is not None:
+        # every few hostile cases a degenerate name is PLACED: on the root, on a sub-segment, on an element, in turn
+        ns = list(nodes(lat))
+        pool = [[ns[0]], [x for x in ns[1:] if x["cls"] == "Segment"] or ns[1:], [x for x in ns[1:] if x["cls"] != "Segment"]][force % 3]
+        cand = DEGENERATE[(force // 3) % len(DEGENERATE)]
+        if pool and cand not in used:
+            tgt = rng.choice(pool)
+            used.discard(tgt["name"])
+            used.add(cand)
+            tgt["name"] = cand
+    if colliding:
+        kids = [n for i, n in enumerate(nodes(lat)) if i > 0]
+        cand = rng.choice(COLLIDING)
+        if kids and cand not in used:
+            rng.choice(kids)["name"] = cand
+    if rng.random() < 0.5:
+        lat["title"] = hostile_name(rng, used)
+    if rng.random() < 0.5:
+        lat["info"] = hostile_name(rng, used)
+    return lat
+
+
+def is_hostile(lat):
+    return any(not (n["name"].isascii() and n["name"].replace("_", "a").isalnum()) or len(n["name"]) > 100 for n in nodes(lat)) \
+        or "title" in lat or "info" in lat
+
+
+def expected_keys(lat):
+    """keys of the "elements" / "lattices" tables in file order, for a uniquely named lattice: elements in depth-first order,
+    segments in post-order (a sub-segment's tables are merged in when it is met, the segment itself is entered last)"""
+    E, LL = [], []
+
+    def walk(s):
+        for c in s["es"]:
+            if c["cls"] == "Segment":
+                walk(c)
+            else:
+                E.append(c["name"])
+        LL.append(s["name"])
+    walk(lat)
+    return E, LL
+
+
+def raw_keys(text):
+    """[(depth, token text incl. quotes)] of every string token that is followed by a colon, by a scan of the file text that knows
+    only quotes, backslashes and brackets (independent of any JSON library)"""
+    out, depth, i, n = [], 0, 0, len(text)
+    while i < n:
+        ch = text[i]
+        if ch == '"':
+            j = i + 1
+            while j < n and text[j] != '"':
+                j += 2 if text[j] == "\\" else 1
+            k = j + 1
+            while k < n and text[k] in " \t\r\n":
+                k += 1
+            if k < n and text[k] == ":":
+                out.append((depth, text[i:j + 1]))
+            i = j + 1
+        else:
+            depth += (ch in "{[") - (ch in "}]")
+            i += 1
+    return out
 
 
 # ---------------------------------------------------------------- lattice specs
@@ -178,15 +350,15 @@ def is_retuned(lat):
 
 def skeleton(spec):
     if spec["cls"] == "Segment":
-        return f"Sg {coq_string(spec['name'])} {coq_list([skeleton(c) for c in spec['es']])}"
-    return f"Lf {coq_string(spec['name'])} {coq_string(spec['cls'])}"
+        return f"Sg {cs(spec['name'])} {coq_list([skeleton(c) for c in spec['es']])}"
+    return f"Lf {cs(spec['name'])} {coq_string(spec['cls'])}"
 
 
 def real_skeleton(e):
     import cheetah
     if isinstance(e, cheetah.Segment):
-        return f"Sg {coq_string(e.name)} {coq_list([real_skeleton(c) for c in e.elements])}"
-    return f"Lf {coq_string(e.name)} {coq_string(type(e).__name__)}"
+        return f"Sg {cs(e.name)} {coq_list([real_skeleton(c) for c in e.elements])}"
+    return f"Lf {cs(e.name)} {coq_string(type(e).__name__)}"
 
 
 # ---------------------------------------------------------------- observation of the real code
@@ -197,7 +369,13 @@ class Reject(Exception):
 def strict_loads(text):
     def reject(c):
         raise Reject(c)
-    return json.loads(text, parse_constant=reject)
+
+    def pairs(kv):
+        d = dict(kv)
+        if len(d) != len(kv):
+            raise Reject("duplicate key " + repr([k for k, _ in kv if sum(1 for q, _ in kv if q == k) > 1][0])[:80])
+        return d
+    return json.loads(text, parse_constant=reject, object_pairs_hook=pairs)
 
 
 def snapshot(seg):
@@ -323,19 +501,38 @@ def beams_bit_equal(x, y):
 
 
 def observe(rows, lat, beam, idx):
-    """save / strict-parse / load / compare / track one lattice.  Returns the observation dict (JSON-able)."""
+    """save / strict-parse / load / compare / track one lattice.  Returns the observation dict (JSON-able).
+    A segment with a child named like one of its own attributes (finding F81) may be too broken for this harness to walk
+    (segment.elements / state_dict() are no longer what they were): then only the attempt to save is observed."""
+    if not collides(lat):
+        return _observe(rows, lat, beam, idx)
+    try:
+        return _observe(rows, lat, beam, idx)
+    except Exception as ex:
+        obs = {"save_exc": None, "load_exc": None, "strict": True, "layout_ok": None, "saved": None, "loaded_skel": None, "diffs": [],
+               "type_drift": 0, "track": None, "pure": None, "elem_keys_ok": None, "retune_problems": [], "key_problems": [], "key_pairs": None,
+               "uninspectable": f"{type(ex).__name__}: {ex}"[:160]}
+        try:
+            realgen.build(lat, dtype=torch.float32).to_lattice_json(str(TMP / f"case_{idx}_c.json"))
+        except Exception as ex2:
+            obs["save_exc"] = type(ex2).__name__
+        return obs, None, None
+
+
+def _observe(rows, lat, beam, idx):
     import cheetah
     seg = realgen.build(lat, dtype=torch.float32)
     path = TMP / f"case_{idx}.json"
     obs = {"save_exc": None, "load_exc": None, "strict": None, "layout_ok": None, "saved": None, "loaded_skel": None, "diffs": [],
-           "type_drift": 0, "track": None, "pure": None, "elem_keys_ok": None, "retune_problems": []}
+           "type_drift": 0, "track": None, "pure": None, "elem_keys_ok": None, "retune_problems": [], "key_problems": [], "key_pairs": None}
+    save_kw = {k: lat[k] for k in ("title", "info") if k in lat}
     retuned = is_retuned(lat)
     if retuned:
         # construct -> re-tune -> save -> reload: from here on `seg` is the LIVE lattice the file has to reproduce
         obs["retune_problems"] = apply_retune(seg, lat)
     before = snapshot(seg)
     try:
-        seg.to_lattice_json(str(path))
+        seg.to_lattice_json(str(path), **save_kw)
     except Exception as ex:
         obs["save_exc"] = type(ex).__name__
         obs["pure"] = snapshots_equal(before, snapshot(seg))
@@ -347,12 +544,19 @@ def observe(rows, lat, beam, idx):
         obs["strict"] = True
     except Reject as ex:
         obs["strict"] = str(ex)
-        doc = json.loads(text)
+        try:
+            doc = json.loads(text)
+        except Exception as ex2:               # a non-finite constant AND not JSON at all
+            obs["strict"] = f"{type(ex2).__name__}: {ex2}"[:160]
+            return obs, seg, None
     except Exception as ex:
-        obs["strict"] = f"{type(ex).__name__}"
+        obs["strict"] = f"{type(ex).__name__}: {ex}"[:160]
         return obs, seg, None
-    obs["layout_ok"] = (isinstance(doc, dict) and list(doc.keys()) == TOP_LEVEL and doc["root"] == seg.name and doc["title"] == seg.name
-                        and doc["version"] == "cheetah-0.7" and isinstance(doc["info"], str)
+    if obs["strict"] is not True and str(obs["strict"]).startswith("duplicate key"):
+        return obs, seg, None
+    obs["layout_ok"] = (isinstance(doc, dict) and list(doc.keys()) == TOP_LEVEL and doc["root"] == seg.name
+                        and doc["title"] == save_kw.get("title", seg.name)
+                        and doc["version"] == "cheetah-0.7" and isinstance(doc["info"], str) and doc["info"] == save_kw.get("info", doc["info"])
                         and isinstance(doc["elements"], dict) and isinstance(doc["lattices"], dict))
     if not obs["layout_ok"]:
         return obs, seg, None
@@ -364,6 +568,35 @@ def observe(rows, lat, beam, idx):
     except Exception:
         obs["layout_ok"] = False
         return obs, seg, None
+    # the file's keys decode to exactly the names: the parsed tables have the lattice's names as keys (all of them, nothing else),
+    # every cell entry is a name of the lattice, and the TEXT at each key's place in the file (found by a scan that knows only
+    # quotes, backslashes and brackets) is paired with the name expected there for the Coq codec (Ops/JsonKeys.key_ok)
+    try:
+        exp_e, exp_l = expected_keys(lat)
+        if sorted(doc["elements"]) != sorted(exp_e):
+            obs["key_problems"].append(f"keys of \"elements\" {sorted(doc['elements'])!r:.300} are not the element names {sorted(exp_e)!r:.300}")
+        if sorted(doc["lattices"]) != sorted(exp_l):
+            obs["key_problems"].append(f"keys of \"lattices\" {sorted(doc['lattices'])!r:.300} are not the segment names {sorted(exp_l)!r:.300}")
+        cells = {n: list(c) for n, c in doc["lattices"].items()}
+        want = {n["name"]: [c["name"] for c in n["es"]] for n in nodes(lat) if n["cls"] == "Segment"}
+        for n, c in want.items():
+            if n in cells and cells[n] != c:
+                obs["key_problems"].append(f"cell list of segment {n!r:.80} is {cells[n]!r:.300}, its children are {c!r:.300}")
+        toks = raw_keys(text)
+        top, lvl2 = [t for d, t in toks if d == 1], [t for d, t in toks if d == 2]
+        if len(top) != len(TOP_LEVEL) or len(lvl2) != len(exp_e) + len(exp_l):
+            obs["key_problems"].append(f"the file has {len(top)} top-level / {len(lvl2)} table keys, expected {len(TOP_LEVEL)} / {len(exp_e) + len(exp_l)}")
+        obs["key_pairs"] = [[n, t] for n, t in zip(TOP_LEVEL + exp_e + exp_l, top + lvl2)]
+        for n, t in obs["key_pairs"]:
+            try:
+                back = json.loads(t)
+            except Exception:
+                back = None
+            if back != n:
+                obs["key_problems"].append(f"the key text {t!r:.120} in the file does not decode to the name {n!r:.120}")
+                break
+    except Exception as ex:
+        obs["key_problems"].append(f"key inspection failed: {type(ex).__name__}: {ex}"[:200])
     try:
         loaded = cheetah.Segment.from_lattice_json(str(path))
     except Exception as ex:
@@ -393,11 +626,18 @@ def coq_case(lat, obs, unloadable=()):
     if obs["saved"] is None:
         saved = "None"
     else:
-        E = coq_list([f"({coq_string(n)}, {coq_string(c)})" for n, c in obs["saved"]["elements"]])
-        LL = coq_list([f"({coq_string(n)}, {coq_list([coq_string(x) for x in c])})" for n, c in obs["saved"]["lattices"]])
+        E = coq_list([f"({cs(n)}, {coq_string(c)})" for n, c in obs["saved"]["elements"]])
+        LL = coq_list([f"({cs(n)}, {coq_list([cs(x) for x in c])})" for n, c in obs["saved"]["lattices"]])
         saved = f"(Some ({E}, {LL}))"
     loaded = "None" if obs["loaded_skel"] is None else f"(Some ({obs['loaded_skel']}))"
     return f"mkc14 ({skeleton(lat)}) {saved} {loaded} {coq_list([coq_string(c) for c in unloadable])}"
+
+
+def coq_keys(obs):
+    """term for Ops/JsonKeys.c14_keys_check: (name, text found at its place in the file) for every key; None: no file / nothing to pair"""
+    if not obs.get("key_pairs"):
+        return None
+    return coq_list([f"({cs(n)}, {sb(t)})" for n, t in obs["key_pairs"] if name_bytes(n) is not None and name_bytes(t) is not None])
 
 
 # ---------------------------------------------------------------- classification
@@ -412,6 +652,8 @@ def classify(lat, obs):
     if obs["save_exc"]:
         if nested and obs["save_exc"] == "UnboundLocalError":
             known.append("F11")
+        elif collides(lat) and obs["save_exc"] in ("TypeError", "AttributeError"):
+            known.append("F81")                   # a child's name clobbered an attribute / method of the Segment: it cannot be saved
         else:
             bad.append(f"to_lattice_json raised {obs['save_exc']}")
         return known, bad
@@ -425,6 +667,8 @@ def classify(lat, obs):
         return known, bad
     if obs["elem_keys_ok"] is False:
         bad.append("element parameter keys are not the defining features")
+    for pr in obs.get("key_problems") or []:
+        bad.append("names as keys of the file: " + pr)
     if obs["load_exc"]:
         if has_cls(lat, "SpaceChargeKick") and "TypeError" in obs["load_exc"] and "grid_shape" in obs["load_exc"]:
             known.append("F12-SpaceChargeKick")
@@ -457,6 +701,9 @@ KNOWN_TEXT = {
     "F11": "convert_segment writes the previous element's name for a sub-segment child (first child: UnboundLocalError; later child: "
            "sub-segment lost, previous element duplicated) [F11]",
     "F13": "default Aperture (x_max/y_max = inf) is written as `Infinity`, which is not valid JSON [F13]",
+    "F81": "Segment.__init__ stores every child under self.__dict__[child.name] without guarding the names of its own attributes and methods: a "
+           "child named `name` turns segment.name into a list, `elements` / `_modules` hide the element list, `to_lattice_json` hides the method; "
+           "such a uniquely named segment cannot be saved (to_lattice_json raises TypeError / AttributeError) [F81]",
     "F12-SpaceChargeKick": "SpaceChargeKick lists grid_shape in defining_features, which is not a constructor parameter: loading raises TypeError [F12]",
     "F12-Quadrupole": "Quadrupole.defining_features lacks num_steps and tracking_method: a saved Bmad-X / multi-step quadrupole loads as a default one [F12]",
     "F12-Screen": "Screen.defining_features lacks is_blocking: lost by save/load [F12]",
@@ -524,6 +771,35 @@ def shrink(rows, lat, beam, still_bad):
                 pass
         if changed:
             continue
+        # give hostile names back a plain one
+        for k, nd in enumerate(list(nodes(lat))):
+            plain = f"n{k}"
+            if nd["name"] == plain or (nd["name"].isascii() and nd["name"].isalnum() and len(nd["name"]) < 20) or plain in {x["name"] for x in nodes(lat)}:
+                continue
+            t2 = copy.deepcopy(lat)
+            list(nodes(t2))[k]["name"] = plain
+            try:
+                if still_bad(t2):
+                    lat = t2
+                    changed = True
+                    break
+            except Exception:
+                pass
+        if changed:
+            continue
+        for k in ("title", "info"):
+            if k in lat:
+                t2 = copy.deepcopy(lat)
+                del t2[k]
+                try:
+                    if still_bad(t2):
+                        lat = t2
+                        changed = True
+                        break
+                except Exception:
+                    pass
+        if changed:
+            continue
         # drop single re-tuning assignments
         n_leaves = len(list(leaves(lat)))
         for li in range(n_leaves):
@@ -577,7 +853,13 @@ def main(tier, replay=None):
                        "live code and checked by Coq.  A further quarter of the cases is RE-TUNED after construction (new values assigned to the "
                        "tensor parameters of every class through the element and through segment.<name>, incl. RBend angle / dipole_e1/2 / "
                        "rbend_e1/2 with dyadic values, some twice) before saving: the loaded lattice must equal the LIVE one (every parameter "
-                       "and public buffer read back from the live objects, bit-equal tracking).  Non-trivial = >=2 leaves; distinct by full "
+                       "and public buffer read back from the live objects, bit-equal tracking).  Half of the as-constructed cases carry NAMES FROM A "
+                       "HOSTILE ALPHABET on elements, sub-segments and the root (quotes, backslashes, escape look-alikes, control characters, "
+                       "non-ASCII incl. combining marks and astral characters, leading / trailing spaces, empty, JSON keywords, the format's own "
+                       "field names, 3000-character names, twins differing only by case / escape / normalisation; hostile title / info): every "
+                       "name comes back exactly, the file's keys are exactly the names (no duplicate keys), and the TEXT of every key in the file "
+                       "is compared with the Coq transcription of json.dumps(key) / of the JSON string parser (vm_compute).  "
+                       "Non-trivial = >=2 leaves; distinct by full "
                        "lattice content.")
     if replay:
         return do_replay(run, replay)
@@ -591,9 +873,17 @@ def main(tier, replay=None):
     unloadable = sorted(r["cname"] for r in rows_l if introspect.extra(r))      # constructor rejects a saved keyword
     cases, terms, problems = [], [], []
     n_rt = 600 if thorough else 48             # construct -> re-tune (assign parameters) -> save -> reload
+    _COLLISION[:] = [collision_names()]
+    n_col = 40 if thorough else 6              # a child named like an attribute / method of Segment (finding F81)
+    key_terms, key_case, term_case, n_host = [], [], [], 0
     for i in range(n + n_rt):
         nested = i % 2 == 1
         lat, vec = gen_case(run.rng, nested, retune=i >= n)
+        if i < n and (i % 4 >= 2 or i < n_col):
+            # names from the hostile alphabet (half of the as-constructed cases): quotes, backslashes, control characters, non-ASCII,
+            # spaces, empty, JSON keywords, the format's own field names, very long, twins differing by case / escape / normalisation
+            n_host += 1
+            hostile_rename(run.rng, lat, colliding=i < n_col, force=(n_host // 4 if n_host % 4 == 0 else None))
         beam = realgen.gen_particle_beam(run.rng)
         obs, _, _ = observe(rows, lat, beam, i)
         known, bad = classify(lat, obs)
@@ -602,6 +892,20 @@ def main(tier, replay=None):
         run.count("nested" if has_nested(lat) else "flat")
         run.count("vectorised" if vec else "scalar")
         run.count("retuned_after_construction" if is_retuned(lat) else "as_constructed")
+        if is_hostile(lat):
+            run.count("hostile_names")
+            for nd in nodes(lat):
+                nm = nd["name"]
+                for lab, hit in (("quote", '"' in nm), ("backslash", "\\" in nm), ("control_char", any(ord(c) < 32 or ord(c) == 127 for c in nm)),
+                                 ("non_ascii", not nm.isascii()), ("outer_space", nm != nm.strip()), ("empty", nm == ""),
+                                 ("long", len(nm) > 100), ("json_keyword", nm in ("null", "true", "false", "NaN", "Infinity", "-Infinity")),
+                                 ("format_field", nm in TOP_LEVEL + ["cheetah-0.7", "cell"])):
+                    if hit:
+                        run.count("name_" + lab + ("_segment" if nd["cls"] == "Segment" else "_element"))
+            if collides(lat):
+                run.count("name_collides_with_segment_attribute")
+            if "title" in lat or "info" in lat:
+                run.count("hostile_title_or_info")
         for l in leaves(lat):
             run.count("cls_" + l["cls"])
             for rt in l.get("retune", []):
@@ -618,7 +922,15 @@ def main(tier, replay=None):
         if bad:
             problems.append((i, bad))
         cases.append((lat, beam, obs))
-        terms.append(coq_case(lat, obs, unloadable))
+        if collides(lat) and (obs.get("uninspectable") or obs["save_exc"]):
+            run.count("outside_converter_model_segment_attribute_clobbered")      # finding F81: not a behaviour of convert_segment
+        else:
+            terms.append(coq_case(lat, obs, unloadable))
+            term_case.append(i)
+        kt = coq_keys(obs)
+        if kt is not None:
+            key_terms.append(kt)
+            key_case.append(i)
     run.sample({"lattice": cases[0][0], "observed": {k: v for k, v in cases[0][2].items() if k != "loaded_skel"}})
     if len(cases) > 1:
         run.sample({"lattice": cases[1][0], "observed": {k: v for k, v in cases[1][2].items() if k != "loaded_skel"}})
@@ -628,7 +940,7 @@ def main(tier, replay=None):
     # repaired converter [conv]; [conv_buggy] is kept as the model of the code before that fix (the _refuted theorems are about it).
     f11_known = any(f["id"] == "F11" and f.get("status") == "known" for f in common.load_known_findings(PID))
     primary, other = ("c14_check_faithful", "c14_check_repaired") if f11_known else ("c14_check_repaired", "c14_check_faithful")
-    failing = common.run_shards(PID, "struct", PREAMBLE, terms, primary)
+    failing = [term_case[k] for k in common.run_shards(PID, "struct", PREAMBLE, terms, primary)]
     model_note = None
     if failing and f11_known:
         failing_rep = common.run_shards(PID, "struct_rep", PREAMBLE, terms, other)
@@ -639,6 +951,10 @@ def main(tier, replay=None):
             failing = []
     run.cov["converter_model"] = "conv (repaired; code after fix 3611d94)" if not f11_known else "conv_buggy (code before the fix)"
     run.cov["traces_validated_against_impl"] += len(cases)
+    # the key layer: the text found at every key's place in the file vs the transcription of json.dumps(key) / of the JSON string
+    # parser (Ops/JsonKeys.v; the round-trip theorem C14_text_roundtrip assumes exactly decode_key (encode_key k) = Some k)
+    failing_keys = [key_case[k] for k in common.run_shards(PID, "keys", PREAMBLE, key_terms, "c14_keys_check", shard=60)] if key_terms else []
+    run.cov["key_files_checked_against_codec_model"] = len(key_terms)
     replay_known(run, rows)
     run.cov["tested_only"] = ["JSON text layer (json.dumps / CompactJSONEncoder / json.load) and float <-> text conversion: exercised, not modelled",
                               "bit-equal tracking of original vs loaded lattice (follows from attribute equality in the model; tested on random beams)",
@@ -676,6 +992,10 @@ def main(tier, replay=None):
         lat, beam, obs = cases[i]
         run.violation({"kind": "correspondence", "broken": "Coq model Ops/Json.v (c14_check_faithful) disagrees with latticejson on this lattice",
                        "lattice": lat, "beam": beam, "observed": obs}, no_input=True)
+    elif failing_keys:
+        lat, beam, obs = cases[failing_keys[0]]
+        run.violation({"kind": "correspondence", "broken": "Coq model Ops/JsonKeys.v (c14_keys_check): the text written for a dictionary key of the file "
+                       "is not json_encode_key(name) / does not decode to the name", "lattice": lat, "beam": beam, "key_pairs": obs["key_pairs"]}, no_input=True)
     elif not proof_ok:
         run.violation({"kind": "proof", "broken": run.proof_problem}, no_input=True)
     return run.finish("proof")
